@@ -454,6 +454,11 @@ class SymEval:
                     self.assign_target(e, S.call("getitem", v, S.lift(i)))
         elif isinstance(t, ast.Subscript):
             # in-place element store: remember the element, mark the container as written
+            if isinstance(t.value, ast.Name) and ((isinstance(t.slice, ast.Slice) and t.slice.lower is None and t.slice.upper is None and t.slice.step is None)
+                                                  or (isinstance(t.slice, ast.Constant) and t.slice.value is Ellipsis)):
+                # x[:] = v / x[...] = v: every element is replaced, the name now stands for v's values
+                self.env[t.value.id] = v
+                return
             k = self._elem_key(t)
             if k is not None:
                 # other remembered elements of the same container may alias only if equal index;
@@ -495,6 +500,13 @@ class SymEval:
     def s_Expr(self, st):
         if isinstance(st.value, ast.Call):
             self.calls.append((st.value, self.guard(), dict(self.env)))
+            outs = [k for k in st.value.keywords if k.arg == "out" and isinstance(k.value, ast.Name)]
+            if outs:
+                # ufunc(x, out=y): y now holds the result
+                import copy
+                c2 = copy.copy(st.value)
+                c2.keywords = [k for k in st.value.keywords if k.arg != "out"]
+                self.env[outs[0].value.id] = self.expr(c2)
             if self.inline and isinstance(st.value.func, ast.Name):
                 # a bare call statement to a helper that was asked to be inlined (validation factored out)
                 self.expr(st.value)
